@@ -192,6 +192,59 @@ example : decodeBundle (manyBlocks 254).enc = some (manyBlocks 254) :=
 example : rfc9171Shape (manyBlocks 23).enc = true := C02_shape _ (by decide +kernel)
 example : ((manyBlocks 23).enc.take 2) = [0x9f, 0x88] := by decide +kernel
 
+/-! ### Block-type-specific data is opaque to the bundle codec -/
+
+/-- `wf` says nothing about the *content* of block-type-specific data: replacing the data of every
+    block by arbitrary octets keeps a bundle well-formed. -/
+theorem C02_wf_any_block_data (b : Bundle) (h : wf b = true) (f : Canonical → Bytes)
+    (hf : ∀ c, u64 (f c).length = true) :
+    wf { b with blocks := b.blocks.map (fun c => { c with btsd := some (f c) }) } = true := by
+  simp only [wf, Bool.and_eq_true] at h ⊢
+  refine ⟨h.1, ?_⟩
+  rw [List.all_eq_true] at *
+  intro c hc
+  simp only [List.mem_map] at hc
+  obtain ⟨c0, hc0, rfl⟩ := hc
+  have := h.2 c0 hc0
+  simp only [wfCanonical, Bool.and_eq_true] at this ⊢
+  obtain ⟨⟨⟨⟨⟨h1, h2⟩, h3⟩, h4⟩, _⟩, h6⟩ := this
+  exact ⟨⟨⟨⟨⟨h1, h2⟩, h3⟩, h4⟩, by simpa [wfOptBytes] using hf c0⟩, h6⟩
+
+/-- Whatever octets the blocks carry — data of a known block type serialised by another encoder
+    (longer heads, indefinite-length arrays, EID text this code would normalise), an administrative
+    payload that is not a dissectable record, ciphertext — decoding succeeds, returns exactly those
+    octets, and re-encoding is byte-identical. The PAYLOAD_ADMIN flag and the block type codes play no
+    role. -/
+theorem C02_any_block_data (b : Bundle) (h : wf b = true) (f : Canonical → Bytes)
+    (hf : ∀ c, u64 (f c).length = true) :
+    let b' : Bundle := { b with blocks := b.blocks.map (fun c => { c with btsd := some (f c) }) }
+    decodeBundle b'.enc = some b' ∧ (decodeBundle b'.enc).map Bundle.enc = some b'.enc := by
+  have hw := C02_wf_any_block_data b h f hf
+  have hr := C02_roundtrip _ hw
+  exact ⟨hr, by rw [hr]; rfl⟩
+
+/-- Re-encoding a decoded bundle reproduces the octets, for every well-formed bundle. -/
+theorem C02_reencode_identical (b : Bundle) (h : wf b = true) :
+    (decodeBundle b.enc).map Bundle.enc = some b.enc := by
+  rw [C02_roundtrip b h]; rfl
+
+/-- hop count as an indefinite-length array, previous node `dtn://node7` (no trailing `/`), bundle age
+    with a two-octet head, and an admin-flagged bundle whose payload is the integer 5 -/
+def exForeign : Bundle :=
+  { primary := { flags := 2, dest := .dtn (ascii "//dst/svc"), src := .ipn [1, 2], ts := ⟨1, 1⟩, lifetime := 1000 },
+    blocks := [ { typeCode := 10, blockNum := 2, btsd := some [0x9f, 0x18, 0x1e, 0x01, 0xff] },
+                { typeCode := 6, blockNum := 3,
+                  btsd := some ([0x82, 0x01, 0x67] ++ ascii "//node7") },
+                { typeCode := 7, blockNum := 4, btsd := some [0x19, 0x00, 0x05] },
+                { typeCode := 1, blockNum := 1, btsd := some [0x05] } ] }
+
+example : wfRfcEids exForeign = true := by decide +kernel
+example : (decodeBundle exForeign.enc).map (fun b => b.blocks.map (·.btsd))
+    = some (exForeign.blocks.map (·.btsd)) := by
+  rw [C02_roundtrip_rfc exForeign (by decide +kernel)]; rfl
+example : (decodeBundle exForeign.enc).map Bundle.enc = some exForeign.enc :=
+  C02_reencode_identical _ (C02_wfRfcEids_wf _ (by decide +kernel))
+
 /-! ### Security block payloads (types 11 / 12): the Abstract Security Block sequence -/
 
 /-- Round trip of the ASB codec for every well-formed value: any number of targets, parameters
